@@ -10,7 +10,7 @@ import floatbase
 PROP = "C17"
 META = dict(
     technique="Coq proof over one model with two arithmetics (exact reals + Flocq IEEE binary64; Interval for the simplex bound) + coqc-evaluated binary64 model vs crate correspondence",
-    text="Machine-checked (Coq 8.16.1, Flocq 4.1, Interval) theorems about a model of Phase/ConstHz/Hz/Sine/Saw/Square/Noise/NoiseSimplex written after dasp_signal/src/lib.rs over an abstract numeric record: on exact reals the n-th phase is frac(sum hz_k/rate), saw = 1-2*phase, square = +1 on [0,1/2) and -1 on [1/2,1), sine = sin(2*pi*phase), |simplex| <= 1, and a variable-frequency oscillator pulls exactly one control frame per output; on IEEE binary64 (x % w proved exact) every phase of every finite non-negative step sequence of any length lies in [0,1), saw/sine in [-1,1], square in {-1,+1}, noise in (-1,1] and equal to noise_1((seed+n) mod 2^64). The binary64 instance is executed inside coqc and compared with the real crate: phases, saw, square, simplex, noise, pull counters bit-for-bit; sine within 4 ulp of libm's value at the model's argument. Known class K1 (hz/rate overflows to +inf) is routed through KNOWN_FINDINGS.json.",
+    text="Machine-checked (Coq 8.16.1, Flocq 4.1, Interval) theorems about a model of Phase/ConstHz/Hz/Sine/Saw/Square/Noise/NoiseSimplex written after dasp_signal/src/lib.rs over an abstract numeric record: on exact reals the n-th phase is frac(sum hz_k/rate), saw = 1-2*phase, square = +1 on [0,1/2) and -1 on [1/2,1), sine = sin(2*pi*phase), |simplex| <= 1, and a variable-frequency oscillator pulls exactly one control frame per output; on IEEE binary64 (x % w proved exact) every phase of every finite non-negative step sequence of any length lies in [0,1), saw/sine in [-1,1], square in {-1,+1}, noise in (-1,1] and equal to noise_1((seed+n) mod 2^64). The binary64 instance is executed inside coqc and compared with the real crate: phases, saw, square, simplex, noise, pull counters bit-for-bit; sine within 4 ulp of libm's value at the model's argument. Control signals of the variable-frequency oscillator include the crate's own gen/gen_mut/from_iter sources and add_amp/mul_amp/zip_map/scale_amp/offset_amp composites run past the end of their finite part, with call counters on both parts (exactly one control frame per output frame). The same cases are diffed against the release profile and the no_std-configured build. Known class K1 (hz/rate overflows to +inf) is routed through KNOWN_FINDINGS.json.",
     note="Trusted: Coq kernel + the 4 standard real-number/classical axioms (and the primitive-integer axioms used by Interval for the simplex bound); Base/Float.v validated against rustc (floatbase); libm sin enters as a Section variable with |sin x| <= 1 on finite x as hypothesis; the simplex bound is proved for exact arithmetic only, the rounded evaluation is compared bit-for-bit on the sampled phases and range-sampled on long runs.",
     design="6/C17")
 HEADER = "From Dasp Require Import Signal.OscRun."
@@ -46,15 +46,35 @@ def cbits(x):
     return NAN if x != x else bits(x)
 
 
+def ctl_frames(it):
+    """frames of a composite control signal (kind H), python floats; classification only"""
+    a = [fl(x) for x in it["a"]]
+    b = [fl(x) for x in it["b"]]
+    t = fl(it["topv"])
+    out = []
+    for k in range(it["n"]):
+        x = a[k] if k < len(a) else 0.0
+        y = b[k] if k < len(b) else 0.0
+        u, v = (y, x) if it["order"] else (x, y)
+        c = {0: y, 4: x, 1: u + v, 2: u * v}.get(it["op"], u * 0.5 + v)
+        out.append(c * t if it["top"] == 1 else (c + t if it["top"] == 2 else c))
+    return out
+
+
 def replica(it):
     """python-float replica of the phase recurrence: (phases, steps, wraps). Used for the libm oracle
     table handed to the model, for classification (K1 / non-trivial) — never as the oracle of the check."""
     rate = fl(it["rate"])
-    hz = [fl(h) for h in it["hz"]]
+    if it["kind"] == "H":
+        hz = ctl_frames(it)
+        mode = 1
+    else:
+        hz = [fl(h) for h in it["hz"]]
+        mode = it["mode"]
     nxt, phases, steps, wraps = 0.0, [], [], 0
     for k in range(it["n"]):
         phases.append(nxt)
-        h = hz[0] if it["mode"] == 0 else (hz[k] if k < len(hz) else 0.0)
+        h = hz[0] if mode == 0 else (hz[k] if k < len(hz) else 0.0)
         st = h / rate
         steps.append(st)
         s = nxt + st
@@ -80,6 +100,15 @@ def build(item):
         it["line"] = f"O {it['rate']} {it['mode']} {it['n']} " + " ".join(str(h) for h in it["hz"])
         tabs = "[" + "; ".join(f"({a}%Z, {b}%Z)" for a, b in tab) + "]"
         it["coq"] = f"COsc {it['rate']}%Z {it['mode']}%Z {F.zlist(it['hz'])} {it['n']}%Z {tabs}"
+    elif it["kind"] == "H":
+        it["a"] = it["a"][:it["n"]]
+        phases, steps, wraps = replica(it)
+        it["k1"] = any(math.isinf(s) or s != s for s in steps)
+        it["wraps"] = wraps
+        it["line"] = (f"H {it['rate']} {it['n']} {it['op']} {it['order']} {it['genkind']} {it['top']} {it['topv']} {len(it['b'])} "
+                      + " ".join(str(h) for h in it["a"] + it["b"]))
+        it["coq"] = (f"CHz {it['rate']}%Z {it['n']}%Z {it['op']}%Z {it['order']}%Z {it['top']}%Z {it['topv']}%Z "
+                     f"{F.zlist(it['a'])} {F.zlist(it['b'])}")
     else:
         it["line"] = f"N {it['seed']} {it['n']} {it['c']}"
         it["coq"] = f"CNoise {it['seed']}%Z {it['n']}%Z {it['c']}%Z"
@@ -93,7 +122,7 @@ def rand_rate(r):
 
 def gen_cases(rng, tier):
     items = []
-    nruns = 300 if tier == "quick" else 1200
+    nruns = 270 if tier == "quick" else 1200
     frames = lambda r: r.choice([20, 50, 80, 100, 100, 120]) if tier == "quick" else r.choice([50, 100, 100, 150, 200])
     fixed_rates = [1e-3, 1.0, 44100.0, 1e9]
     for k in range(nruns):
@@ -149,6 +178,33 @@ def gen_cases(rng, tier):
     for rate, hz, mode in k1:
         n = 4 if mode == 0 else len(hz)
         items.append(build(dict(kind="O", rate=bits(rate), mode=mode, n=n, hz=[bits(h) for h in hz], pat="K1", rate_cls=6)))
+    # control signals built from dasp_signal's own sources/adaptors: finite from_iter pulled past its end,
+    # gen / gen_mut, and composites gen (+|*|zip) from_iter in both operand orders, optionally scaled/offset
+    ncomp = 72 if tier == "quick" else 400
+    for k in range(ncomp):
+        r = rng.fork(f"ctl{k}")
+        rate_cls = r.below(6)
+        rate = fixed_rates[rate_cls] if rate_cls < 4 else rand_rate(r)
+        n = r.choice([12, 24, 40, 60]) if tier == "quick" else r.choice([24, 60, 100])
+        u = lambda: r.below(1 << 53) / float(1 << 53)
+        op = [0, 4, 1, 2, 3, 1, 2, 3, 1][k % 9] if k < 36 else r.choice([0, 4, 1, 1, 2, 2, 3, 3])
+        order = (k // 9) % 2 if k < 36 else r.below(2)
+        genkind = (k // 18) % 2 if k < 36 else r.below(2)
+        top = r.choice([0, 0, 1, 2])
+        topv = r.choice([0.5, 2.0, 1.0 + u(), 0.25 * u()]) if top == 1 else (rate * 0.1 * u() if top == 2 else 0.0)
+        # length of the finite part: empty, one frame, ends mid-run (the interesting case), exactly n, (op 4: unused)
+        m = 0 if op == 4 else r.choice([0, 1, 2, n // 3, n // 2, n // 2, n - 1, n])
+        scale = rate * r.choice([0.05, 0.3, 0.3, 1.7])
+        a = [scale * u() for _ in range(n)]
+        if op == 2:   # product: keep the finite factor O(1)
+            b = [0.5 + u() for _ in range(m)]
+        else:
+            b = [scale * u() for _ in range(m)]
+        if r.chance(1, 6) and m:
+            b[r.below(m)] = 0.0
+        items.append(build(dict(kind="H", rate=bits(rate), n=n, op=op, order=order, genkind=genkind, top=top, topv=bits(topv),
+                                a=[bits(x) for x in a], b=[bits(x) for x in b], pat="ctl_" + ["from_iter", "add_amp", "mul_amp", "zip_map", "gen"][op]
+                                + ("" if top == 0 else ("+scale_amp" if top == 1 else "+offset_amp")), rate_cls=rate_cls)))
     n_osc = len(items)
     # noise
     seeds = [0, 1, 2 ** 32, 2 ** 63, 2 ** 64 - 3, 2 ** 64 - 2, 2 ** 64 - 1]
@@ -174,6 +230,8 @@ def nontrivial(it):
     (step >= 1, multi-cycle wrap), or seed + n crosses 2^64 (wrapping seed increment)."""
     if it["kind"] == "N":
         return it["seed"] + it["n"] > 2 ** 64
+    if it["kind"] == "H":   # run past the end of the finite part (exhaustion of one operand), or a phase wrap
+        return (it["op"] != 4 and len(it["b"]) < it["n"]) or it["wraps"] > 0
     rate = fl(it["rate"])
     return it["wraps"] > 0 or any(fl(h) > rate for h in it["hz"][:it["n"]])
 
@@ -211,6 +269,19 @@ def verdict(it, obs_line):
             if not good:
                 fails.append(f"{names[o[0]]} frame {k} = {v!r} out of range")
                 break
+    if it["kind"] == "H":
+        n, m = it["n"], len(it["b"])
+        exp_g = [0] * n if it["op"] == 0 else list(range(1, n + 1))
+        exp_i = [0] * n if it["op"] == 4 else [1 + min(k, m) for k in range(1, n + 1)]
+        for tag, exp, what in ((6, exp_g, "gen closure"), (8, exp_i, "from_iter iterator")):
+            tr = [o for o in obs if o and o[0] == tag]
+            if tr and tr[0][1:] != exp:
+                fails.append(f"{what} is not pulled exactly once per output frame (call counter trace {tr[0][1:][:12]}..., expected {exp[:12]}...)")
+        for tag, exp in ((7, exp_g[-1]), (10, exp_i[-1])):
+            fin = [o for o in obs if o and o[0] == tag]
+            if fin and any(c != exp for c in fin[0][1:]):
+                fails.append(f"final call counters {fin[0][1:]} differ from {exp}")
+        return fails
     if it["mode"] == 1:
         tr = [o for o in obs if o and o[0] == 6]
         if tr and tr[0][1:] != list(range(1, it["n"] + 1)):
@@ -265,30 +336,7 @@ def shrink(binpath, it):
     return build(c)
 
 
-def correspond_retry(binpath, items, tag, retries=2):
-    """F.correspond, re-running (up to `retries` times) only the coqc shards that died without a verdict
-    (e.g. killed under memory pressure); a shard that keeps failing is still reported as an error."""
-    import time as _t
-    outl, bad, errors = F.correspond(binpath, items, HEADER, CHECK, tag)
-    for attempt in range(retries):
-        shard_errs = [e for e in errors if e[0].startswith("cases_")]
-        if not shard_errs or len(shard_errs) != len(errors):
-            break
-        n = len(items)
-        nfiles = max(1, min(max(F.NCPU, (n + 399) // 400), n))
-        step = (n + nfiles - 1) // nfiles
-        idxs = []
-        for name, _ in shard_errs:
-            k = int(name.split("_")[1])
-            idxs += list(range(k, min(n, k + step)))
-        _t.sleep(5)
-        o2, b2, e2 = F.correspond(binpath, [items[i] for i in idxs], HEADER, CHECK, f"{tag}_retry{attempt}")
-        bad = sorted(set(bad) | {idxs[j] for j in b2})
-        errors = e2
-    return outl, bad, errors
-
-
-CASE_KEYS = ("kind", "rate", "mode", "n", "hz", "seed", "c", "pat", "rate_cls")
+CASE_KEYS = ("kind", "rate", "mode", "n", "hz", "seed", "c", "pat", "rate_cls", "op", "order", "genkind", "top", "topv", "a", "b")
 
 
 def regenerate():
@@ -350,8 +398,9 @@ def main(rep, tier, seed):
     corpus = load_corpus()
     items, n_osc = gen_cases(rng, tier)
     items = corpus + items
-    outl, bad, errors = correspond_retry(binpath, items, "c17")
+    outl, bad, errors = F.correspond(binpath, items, HEADER, CHECK, "c17")
     rep.extra["no_std_build"] = F.nostd_phase(rep, "c17", items, outl) if not errors and len(outl) == len(items) else {}
+    rep.extra["build_profiles"] = F.profile_phase(rep, "c17", items, outl, profiles=("release",)) if not errors and len(outl) == len(items) else {}
     for name, msg in errors:
         rep.violation("correspondence_error_" + name.replace("/", "_"),
                       {"kind": "correspondence could not be evaluated", "where": name, "log": msg}, no_input=True)
@@ -362,7 +411,7 @@ def main(rep, tier, seed):
             fails = verdict(it, o)
             if not fails:
                 continue
-            if it["kind"] == "O" and it.get("k1"):
+            if it["kind"] in ("O", "H") and it.get("k1"):
                 k1_seen += 1
                 if K1_CLASS in known:
                     continue
@@ -393,7 +442,7 @@ def main(rep, tier, seed):
     hist = {"pattern": {}, "rate_class": {}, "frames": {}, "noise_seed_class": {}}
     rate_names = ["1e-3", "1", "44100", "1e9", "random", "random", "K1"]
     for it in items:
-        if it["kind"] == "O":
+        if it["kind"] in ("O", "H"):
             hist["pattern"][it["pat"]] = hist["pattern"].get(it["pat"], 0) + 1
             rn = rate_names[it.get("rate_cls", 4)]
             hist["rate_class"][rn] = hist["rate_class"].get(rn, 0) + 1
@@ -404,9 +453,10 @@ def main(rep, tier, seed):
             cls = "crosses_2^64" if s + it["n"] > 2 ** 64 else ("small" if s < 2 ** 32 else "large")
             hist["noise_seed_class"][cls] = hist["noise_seed_class"].get(cls, 0) + 1
     nontriv = len({it["line"] for it in items if nontrivial(it)}) if not errors else 0
-    dist = dict(hist, osc_runs=n_osc, noise_runs=len(items) - n_osc - len(corpus), corpus_cases=len(corpus),
+    dist = dict(hist, osc_runs=n_osc, composite_control_runs=sum(1 for it in items if it["kind"] == "H"), noise_runs=len(items) - n_osc - len(corpus), corpus_cases=len(corpus),
                 k1_inputs=sum(1 for it in items if it.get("k1")),
-                frames_total=sum(it["n"] * (5 if it["kind"] == "O" else 1) for it in items),
+                frames_total=sum(it["n"] * {"O": 5, "H": 3}.get(it["kind"], 1) for it in items),
+                control_runs_past_finite_end=sum(1 for it in items if it["kind"] == "H" and it["op"] != 4 and len(it["b"]) < it["n"]),
                 phase_wraps_total=sum(it.get("wraps", 0) for it in items))
     samples = [items[i]["line"][:300] for i in (len(corpus), len(corpus) + n_osc // 2, len(items) - 1)]
     extra = {"floatbase_cases": fb_n, "floatbase_disagreements": len(fb_bad), "range_sampled_frames_per_signal": n_range,
@@ -429,7 +479,7 @@ def finish(rep, info, n, nontriv, dist, samples, bad=(), extra=None):
         ],
         "theorems": th, "axioms_reported": info.get("axioms", []),
         "evaluations": n, "distinct_nontrivial": nontriv,
-        "rule": "each evaluation = one run: (rate, const or per-frame frequency sequence, n frames) through phase+saw+square+sine+noise_simplex, or (seed, n, clone point) through noise with clone and restart; non-trivial = the phase wraps at least once, or some hz > rate, or seed+n crosses 2^64",
+        "rule": "each evaluation = one run: (rate, const or per-frame frequency sequence, n frames) through phase+saw+square+sine+noise_simplex, or (seed, n, clone point) through noise with clone and restart; non-trivial = the phase wraps at least once, or some hz > rate, or seed+n crosses 2^64, or (composite/finite control) the run continues past the end of the finite from_iter part",
         "samples": samples, "input_distribution": dist, "disagreements": len(bad),
         "explanation": "theorems: exact-real formulas for phase/saw/square/sine/simplex bound, pull-counter theorem, IEEE binary64 range theorems for phase/saw/square/sine/noise and noise purity for every step sequence/seed/length; tie: the binary64 instance of the same model run by coqc on the same cases as the crate, compared bit-for-bit (sine: 4 ulp to libm at the model's argument). The simplex bound for the ROUNDED evaluation is not proved: it is only sampled (bit-exact agreement on the generated phases + range sampling of long runs).",
     }
